@@ -28,8 +28,9 @@ def run(ctx):
                 "individuals (4 identifiers whose string order differs from their numeric order, 3 data variants incl. one with a "
                 "non-finite attachment) and every scenario (modify another individual, every permutation, every single individual, "
                 "2-3 workers); scenarios enumerated by TLC are executed on a real fitted model: per-individual attachment / "
-                "regularity terms at fixed latent values, population totals, a seeded mean_posterior chain, scipy_minimize "
-                "personalization (n_jobs 1-3); TLC checks the recorded relations (CohortTrace.tla): bit-identical outputs of the "
+                "regularity terms at fixed latent values, population totals, seeded mean_posterior / mode_posterior chains, scipy_minimize "
+                "personalization (n_jobs 1-3); the modify scenarios also on a precisely observed cohort (noise 0.01, 40 visits: "
+                "prohibitive proposals) and on the joint model (an individual whose event precedes the population time-shift); TLC checks the recorded relations (CohortTrace.tla): bit-identical outputs of the "
                 "untouched individuals when another one is modified, per-identifier equality under permutation / alone / other "
                 "worker counts, totals = sums, outputs keyed by the input identifiers in input order. Plus Sampler.tla "
                 "DecisionLocal (C03 driver). Distinct = distinct (cohort, scenario).")
@@ -71,9 +72,17 @@ def run(ctx):
         chosen += pick[: quota[kind]]
     kinds = ["logistic_diag_src1"] if q else ["logistic_diag_src1", "linear_scalar_src1"]
     recs = []
-    for kind in kinds:
-        runner = co.Runner(kind, tmp, ctx.seed + 1)
-        for c in chosen:
+    # + a precisely observed cohort (tiny noise, 40 visits each: most proposals are prohibitive for everybody) and the joint model
+    #   (longitudinal + event data; "d1" = an individual whose event is observed before the population time-shift, for whom the
+    #   prior mode is outside the support of the likelihood): "modify" scenarios (all scenario types for the joint model in the
+    #   thorough tier)
+    runs = [(kind, False, chosen) for kind in kinds]
+    mods = [c for c in chosen if c["scen"][0] == "modify"]
+    runs.append(("logistic_diag_src1", True, mods))
+    runs.append(("joint_src1", False, mods if q else chosen))
+    for kind, precise, todo in runs:
+        runner = co.Runner(kind, tmp, ctx.seed + 1, precise=precise)
+        for c in todo:
             ids = [r["id"] for r in c["cohort"]]
             data = [r["data"] for r in c["cohort"]]
             sc = c["scen"]
@@ -86,22 +95,24 @@ def run(ctx):
             else:
                 kw = dict(j=sc[1])
             recs.append(co.run_scenario(runner, ids, data, sc[0], **kw))
-            ctx.case(key=(kind, tuple(ids), tuple(data), repr(sc)))
+            recs[-1]["model"] = kind + ("/precise" if precise else "")
+            ctx.case(key=(kind, precise, tuple(ids), tuple(data), repr(sc)))
     ok, idx, r2 = cases.validate_records("CohortTrace", CFG_T, recs, tmp, "conf")
     ctx.traces += len(recs)
     ctx.states += r2.distinct
     ctx.transitions += r2.generated
-    ctx.log(f"{len(recs)} cohort scenarios executed on {len(kinds)} model kind(s) -> {'all conform' if ok else 'MISMATCH'} ({r2.wall:.1f}s)")
+    ctx.log(f"{len(recs)} cohort scenarios executed on {len(runs)} model(s) -> {'all conform' if ok else 'MISMATCH'} ({r2.wall:.1f}s)")
     ctx.sample(recs[0])
     if not ok:
         for r in recs:
             failed = [k for k in ("terms_same", "totals_are_sums", "chain_same", "optim_same", "totals_same") if not r[k]]
             if r["status"] != "ok" or failed or r["output_ids"] != (r["ids"] if r["scen"] != "permute" else [r["ids"][p - 1] for p in r["perm"]]) and r["scen"] != "single":
                 ctx.violation({"check": "scenario", "scen": r["scen"], "failed": (failed or [r["status"][:40] if r["status"] != "ok" else "output_ids"])[0]},
-                              f"cohort scenario {r['scen']} on {r['ids']}/{r['data']}: {failed or r['status']} (outputs {r['output_ids']})", replay=r)
+                              f"cohort scenario {r['scen']} ({r['model']}) on {r['ids']}/{r['data']}: {failed or r['status']} (outputs {r['output_ids']})", replay=r)
     # sampler-level locality (C03 driver, individual kind): one run with the individual sampler under directed draws
     from ..drivers import sampler as smp
-    smp.run_traces(ctx, [("logistic_diag_src1", "Gibbs", False, "mean_posterior", False)], n_iter=3, seeds=[ctx.seed + 5], selftest=False)
+    smp.run_traces(ctx, [("logistic_diag_src1", "Gibbs", False, "mean_posterior", False), ("mixture_2", "Gibbs", False, None, False)],
+                   n_iter=3, seeds=[ctx.seed + 5], selftest=False)
     import copy
     good = next(r for r in recs if r["status"] == "ok")
     bad = copy.deepcopy(good)
